@@ -820,7 +820,167 @@ def inplace(repo):
     return {"sites": sites, "failures": failures, "undecided": []}
 
 
-ANALYSES = {"kernels": kernels, "importfx": importfx, "srcreads": srcreads, "inplace": inplace}
+# --------------------------------------------------------------------------
+# C23: the generator operands of random nodes are only read through copies
+# --------------------------------------------------------------------------
+RNG_OPERANDS = ("rng", "_state")
+RNG_NODE_FILES = ("dask_array/random/_expr.py", "dask_array/random/_choice.py", "dask_array/_frisky/random.py")
+RNG_BUILD_FILES = ("dask_array/random/_utils.py", "dask_array/random/_generator.py", "dask_array/random/_random_state.py")
+
+
+def _parents(tree):
+    par = {}
+    for n in ast.walk(tree):
+        for c in ast.iter_child_nodes(n):
+            par[id(c)] = n
+    return par
+
+
+def _is_copy_call(n):
+    return isinstance(n, ast.Call) and (dotted(n.func) or "") in ("copy.deepcopy", "deepcopy") and len(n.args) == 1
+
+
+def rngreads(repo):
+    """A random node must be a function of its operands alone (it is re-created from them by rewrites, lowering and
+    unpickling).  Its generator operand is mutable, so (1) inside the node classes every read of the generator operand is
+    the argument of copy.deepcopy (or of isinstance / type), and (2) every construction of a node class receives, at the
+    generator's operand position, a state of the node's own: copy.deepcopy(...), _spawn_bitgens(...)[k], or a local bound
+    to one of those."""
+    sites = 0
+    failures = []
+    undecided = []
+    node_classes = {}   # class name -> index of the generator operand in _parameters
+    trees = {}
+    for rel in RNG_NODE_FILES + RNG_BUILD_FILES:
+        try:
+            trees[rel] = parse(repo, rel)[0]
+        except FileNotFoundError:
+            continue
+    for rel in RNG_NODE_FILES:
+        tree = trees.get(rel)
+        if tree is None:
+            continue
+        for cls in [n for n in ast.walk(tree) if isinstance(n, ast.ClassDef)]:
+            for st in cls.body:
+                if isinstance(st, ast.Assign) and any(isinstance(t, ast.Name) and t.id == "_parameters" for t in st.targets) \
+                        and isinstance(st.value, (ast.List, ast.Tuple)):
+                    names = [e.value for e in st.value.elts if isinstance(e, ast.Constant)]
+                    for g in RNG_OPERANDS:
+                        if g in names:
+                            node_classes[cls.name] = names.index(g)
+    # subclasses without their own _parameters inherit the position
+    changed = True
+    while changed:
+        changed = False
+        for rel in RNG_NODE_FILES:
+            tree = trees.get(rel)
+            if tree is None:
+                continue
+            for cls in [n for n in ast.walk(tree) if isinstance(n, ast.ClassDef)]:
+                if cls.name not in node_classes:
+                    for b in cls.bases:
+                        if (dotted(b) or "").split(".")[-1] in node_classes:
+                            node_classes[cls.name] = node_classes[(dotted(b) or "").split(".")[-1]]
+                            changed = True
+    # (1) reads inside the node files
+    PURE = ("copy.deepcopy", "deepcopy", "isinstance", "type", "tokenize", "typename", "id")
+
+    def use_is_pure(n, par):
+        """n: an expression denoting the live generator operand (or a sub-object of it). Returns (ok, reason, alias)"""
+        top = n
+        p_ = par.get(id(top))
+        while isinstance(p_, ast.Attribute) and p_.value is top:       # x.rng._bit_generator ...
+            top, p_ = p_, par.get(id(p_))
+        if isinstance(p_, ast.Call) and p_.func is top and top is not n:
+            return False, f"a method is called on the live generator ({ast.unparse(p_)[:70]})", None
+        if isinstance(p_, ast.Call) and any(a is top for a in p_.args) or \
+                isinstance(p_, ast.keyword) or isinstance(p_, ast.Starred):
+            call = p_ if isinstance(p_, ast.Call) else par.get(id(p_))
+            if isinstance(call, ast.Call) and (dotted(call.func) or "") in PURE:
+                return True, None, None
+            return False, f"the live generator is handed to {ast.unparse(call.func) if isinstance(call, ast.Call) else '?'}(...)", None
+        if isinstance(p_, ast.Assign) and p_.value is top and len(p_.targets) == 1 and isinstance(p_.targets[0], ast.Name):
+            return True, None, p_.targets[0].id
+        if isinstance(p_, (ast.Compare, ast.BoolOp, ast.UnaryOp, ast.If, ast.IfExp, ast.Expr)):
+            return True, None, None
+        return None, f"the live generator (or a part of it) flows into {ast.unparse(p_)[:70] if p_ is not None else '?'}", None
+
+    for rel in RNG_NODE_FILES:
+        tree = trees.get(rel)
+        if tree is None:
+            continue
+        par = _parents(tree)
+        for fn in [n for n in ast.walk(tree) if isinstance(n, ast.FunctionDef)]:
+            work = []
+            for n in ast.walk(fn):
+                if isinstance(n, ast.Attribute) and n.attr in RNG_OPERANDS and isinstance(n.ctx, ast.Load):
+                    work.append(n)
+                elif isinstance(n, ast.Call) and (dotted(n.func) or "").endswith(".operand") and n.args \
+                        and isinstance(n.args[0], ast.Constant) and n.args[0].value in RNG_OPERANDS:
+                    work.append(n)
+            aliases = set()
+            done = set()
+            while work:
+                n = work.pop()
+                if id(n) in done:
+                    continue
+                done.add(id(n))
+                sites += 1
+                ok, why, alias = use_is_pure(n, par)
+                if alias is not None and alias not in aliases:
+                    aliases.add(alias)
+                    work.extend(m for m in ast.walk(fn) if isinstance(m, ast.Name) and m.id == alias and isinstance(m.ctx, ast.Load))
+                if ok is None:
+                    undecided.append({"site": f"{rel}:{n.lineno} {ast.unparse(n)} in {fn.name}", "what": why + " (not followed further)"})
+                elif not ok:
+                    failures.append({"site": f"{rel}:{n.lineno} {ast.unparse(n)} in {fn.name}",
+                                     "what": f"{why}: the generator operand is not read through copy.deepcopy, so deriving from it "
+                                             "advances a value the node is re-created from, and a re-created node (rewrite of a "
+                                             "parameter, lowering, unpickling) is another realization"})
+    # (2) constructions
+    for rel in RNG_NODE_FILES + RNG_BUILD_FILES:
+        tree = trees.get(rel)
+        if tree is None:
+            continue
+        for fn in [n for n in ast.walk(tree) if isinstance(n, ast.FunctionDef)]:
+            own = set()
+            for n in ast.walk(fn):
+                if isinstance(n, ast.Assign) and len(n.targets) == 1 and isinstance(n.targets[0], ast.Name) and _own_state(n.value, own):
+                    own.add(n.targets[0].id)
+            params = {a.arg for a in fn.args.args}
+            for n in ast.walk(fn):
+                if not isinstance(n, ast.Call):
+                    continue
+                callee = (dotted(n.func) or "").split(".")[-1]
+                if callee in node_classes:
+                    pos = node_classes[callee]
+                elif callee == "cls" and "cls" in params and fn.name == "_new_random":
+                    pos = 0
+                else:
+                    continue
+                if any(isinstance(a, ast.Starred) for a in n.args[: pos + 1]) or len(n.args) <= pos:
+                    # re-creation from operands (type(self)(*operands)) carries the node's own state along
+                    continue
+                sites += 1
+                if not _own_state(n.args[pos], own):
+                    failures.append({"site": f"{rel}:{n.lineno} {callee}(...) in {fn.name}",
+                                     "what": f"a random node is built on `{ast.unparse(n.args[pos])[:60]}`, which is not a state of its own "
+                                             "(copy.deepcopy(...) / _spawn_bitgens(...)[k]): the node shares a mutable generator with "
+                                             "its caller"})
+    return {"sites": sites, "failures": failures, "undecided": undecided, "node_classes": sorted(node_classes)}
+
+
+def _own_state(e, own):
+    if _is_copy_call(e):
+        return True
+    if isinstance(e, ast.Subscript) and isinstance(e.value, ast.Call) and (dotted(e.value.func) or "").split(".")[-1] == "_spawn_bitgens":
+        return True
+    if isinstance(e, ast.Name) and e.id in own:
+        return True
+    return False
+
+
+ANALYSES = {"kernels": kernels, "importfx": importfx, "srcreads": srcreads, "inplace": inplace, "rngreads": rngreads}
 
 
 def run(rep, names, repo, known, tier):
@@ -845,7 +1005,8 @@ def run(rep, names, repo, known, tier):
             payload = {"property": rep.prop, "kind": "frame", "analysis": name, "args": f, **f}
             path = D.write_replay(rep.prop, f"{name}-{f['site']}", payload)
             rep.violations.append((name, path, f["site"]))
-            rep.say(f"VIOLATION property={rep.prop} replay={path}")
+            # a frame analysis names the offending site; it has no failing input to replay
+            rep.say(f"VIOLATION property={rep.prop} replay={path} no-failing-input-found")
             rep.say(f"  {f['site']}: {f['what']}")
         for u in r["undecided"]:
             rep.undecided.append(f"{name}: {u['site']}: {u['what']}")
